@@ -8,11 +8,17 @@ Driver for C18.  One case = one history of balance rounds on one node pool.
   round <total> <nodeFit>
   node <id> <unsched> <noFit> <alloc×3> <rawKind> <raw×3> <sysCpu> <sysMem>
         alloc = status.allocatable; rawKind 0 = no raw-allocatable annotation, 1 = parsed (raw×3,
-        a resource the annotation does not name is 0), 2 = unparsable
-  pod <node> <id> <ns> <name> <prod> <filt1> <filt2> <evictOK>
+        -1 = the annotation does not name the resource), 2 = unparsable
+  wts <wCpu> <wMem> <wPods>      nodePool.ResourceWeights (a missing key weighs 0), once after the pct lines
+  pod <node> <id> <ns> <name> <prod> <filt1> <filt2> <evictOK> <cls> <prio> <delCost> <evCost>
+        cls = koordPriorityClassOrder rank (free 1, batch 2, mid 3, prod 4, none 5), prio = spec.priority or 0,
+        delCost / evCost = parsed pod-deletion-cost / eviction-cost annotation (0 when absent or invalid)
   metric <node> <ns> <name> <cpu> <mem>       one NodeMetric.Status.PodsMetric entry, in list order
-  order <node> <pod>*        observed processing order (sort orders are fed through, DESIGN §2.4)
+  order <node> <pod>*        observed processing order; the model SORTS nodes and pods itself and uses the
+                             observed order only among elements with equal sort keys (Go's sorts are unstable)
   go
+  dcfg <abn> <norm>   /  dmark <k>      detector-only cases (exhaustive stream): k = 0 filterRealAbnormalNodes
+        on the one node, 1 tryMarkNodesAsNormal, 2 resetNodesAsNormal; output `dst <returned> <state…>` per mark
 Output per round: `use` (measured usage / prod usage, -1 = resource not in the map), `thr`/`cls` per node, `evict` per Evict call, `det` per cached detector, `end`.
 The percent→quantity step `int64(float64(pct)*0.01*float64(cap))` and the deviation-mode averages
 use Lean's runtime Float (IEEE binary64, as Go).
@@ -58,6 +64,10 @@ structure WirePod where
   filt1 : Bool
   filt2 : Bool
   evictOK : Bool
+  cls : Int
+  prio : Int
+  delCost : Int
+  evCost : Int
 
 structure WireMetric where
   node : Nat
@@ -116,6 +126,7 @@ structure DrvCfg where
   cfg : Cfg
   dev : Bool
   pcts : List (PctIn Float)   -- three entries
+  wts : Option (List Int) := none   -- three entries
 
 def trackedDims (pcts : List (PctIn Float)) : List Nat :=
   (List.range 3).filter fun d =>
@@ -153,6 +164,37 @@ structure Acc where
   orders : List (Nat × List Nat) := []
   out : Array String := #[]
   bad : Bool := false
+  dcond : Option Cond := none
+  dds : Dets := []
+
+/-- sortNodesByUsage: the usage map has the tracked resources and always `pods`; capacity per
+    `CapUse.nodeScore`. -/
+def nodeScoreOf (wts : List Int) (dims : List Nat) (w : WireNode) (use : List Int) : Int :=
+  let cap := capacityFor .nodeScore w.alloc w.anno
+  usageScore (((List.range 3).filter fun d => d == 2 || dims.contains d).map fun d =>
+    (use.getD d 0, cap.getD d 0, wts.getD d 0))
+
+/-- sorter.mostRequestedScorePod (float64). -/
+def mostRequestedScorePod (req cap : Int) : Float :=
+  if cap = 0 then 0.0 else
+  let ratio := Float.ofInt req / Float.ofInt cap
+  if ratio >= 1.0 then 1.0 / ratio + 1.0 else ratio
+
+/-- sorter.ResourceUsageScorerPod on a pod metric (cpu, memory) against the amounts by which the node
+    exceeds its thresholds (`exRaw`, 0 = resource not overused: weight 0, capacity 0). -/
+def podUsageScore (wts : List Int) (exRaw : List Int) (m : List Int) : Float :=
+  let w (d : Nat) : Int := if exRaw.getD d 0 > 0 then wts.getD d 0 else 0
+  let sum := [0, 1].foldl (fun (acc : Float) d =>
+    acc + mostRequestedScorePod (m.getD d 0) (exRaw.getD d 0) * Float.ofInt (w d)) 0.0
+  let wsum := w 0 + w 1
+  if wsum = 0 then 0.0 else sum / Float.ofInt wsum
+
+/-- by how much a source node exceeds its (prod) high thresholds, per raw resource. -/
+def exceedRaw (dims : List Nat) (n : Node) : List Int :=
+  let (u, h) := if classify n = Cls.prodHigh then (n.prodUsage, n.phigh) else (n.usage, n.high)
+  (List.range 3).map fun d => match dims.idxOf? d with
+    | some i => let x := u.getD i 0 - h.getD i 0; if x > 0 then x else 0
+    | none => 0
 
 def runRoundLines (a : Acc) (dc : DrvCfg) : Acc :=
   let dims := trackedDims dc.pcts
@@ -165,7 +207,26 @@ def runRoundLines (a : Acc) (dc : DrvCfg) : Acc :=
   let podOrd : Nat → List Nat := fun i => match orders.find? (·.1 = i) with
     | some (_, l) => l
     | none => []
-  let rin : RoundIn := ⟨a.total, a.nodeFit, dims.length, ns, orders.map (·.1), podOrd⟩
+  let wts := dc.wts.getD [0, 0, 0]
+  let wnodes := a.nodes.reverse
+  let scoreOf (sel : RawNode → List Int) (id : Nat) : Int :=
+    match wnodes.find? (·.id = id), nodes.find? (·.id = id) with
+    | some w, some n => nodeScoreOf wts dims w (sel n)
+    | _, _ => 0
+  -- pod sort keys: [class rank, priority, deletion cost, eviction cost, no metric, usage-score rank]
+  let scored : List (Nat × Nat × Bool × Float) := pods.map fun rp =>
+    let ex := match ns.find? (·.id = rp.node) with
+      | some n => exceedRaw dims n
+      | none => [0, 0, 0]
+    (rp.node, rp.pod.id, rp.pod.hasMetric, podUsageScore wts ex rp.pod.metric)
+  let podKey (id : Nat) : List Int :=
+    match wpods.find? (·.id = id), scored.find? (·.2.1 = id) with
+    | some wp, some (node, _, hm, sc) =>
+      let rank := (scored.filter fun x => x.1 = node && x.2.2.1 && x.2.2.2 > sc).length
+      [wp.cls, wp.prio, wp.delCost, wp.evCost, if hm then 0 else 1, if hm then (rank : Int) else 0]
+    | _, _ => []
+  let rin : RoundIn := ⟨a.total, a.nodeFit, dims.length, ns, orders.map (·.1), podOrd,
+    scoreOf (·.usage), scoreOf (·.prodUsage), podKey⟩
   let ro := runRound dc.cfg a.st rin
   let st : St := ⟨observeDets dc.cfg.cond ro.st.nodeDet, observeDets dc.cfg.cond ro.st.prodDet⟩
   let useVec (v : List Int) : List Int := (List.range 3).map fun d =>
@@ -194,6 +255,31 @@ def step (a : Acc) (line : String) : Acc :=
       if d.toNat ≠ dc.pcts.length then fail else
       { a with dc := some { dc with pcts := dc.pcts ++ [⟨optPct l, optPct h, optPct pl, optPct ph⟩] } }
     | _, _ => fail
+  | "dcfg" :: rest =>
+    match nats? rest with
+    | some [abn, norm] => { a with dcond := some ⟨abn, norm⟩, dds := [] }
+    | _ => fail
+  | "dmark" :: rest =>
+    match nats? rest, a.dcond with
+    | some [k], some c =>
+      if k > 2 then fail else
+      let node : Node := ⟨0, false, false, [], [], [], [], [], [], []⟩
+      let (ret, ds) : List Node × Dets :=
+        if k = 0 then filterRealAbnormal (some c) a.dds [node]
+        else if k = 1 then ([], markNormAll (some c) a.dds [0])
+        else ([], resetAll a.dds [0])
+      let ds := observeDets (some c) ds
+      let line := match Dets.get? ds 0 with
+        | some d => s!"dst {ret.length} {b2i d.anomaly} {d.cAbn} {d.cNorm}"
+        | none => s!"dst {ret.length} -1"
+      { a with dds := ds, out := a.out.push line }
+    | _, _ => fail
+  | "wts" :: rest =>
+    match ints? rest, a.dc with
+    | some [w0, w1, w2], some dc =>
+      if dc.wts.isSome || w0 < 0 || w1 < 0 || w2 < 0 then fail else
+      { a with dc := some { dc with wts := some [w0, w1, w2] } }
+    | _, _ => fail
   | "round" :: rest =>
     match ints? rest with
     | some [total, nf] => { a with total := total.toNat, nodeFit := nf ≠ 0, nodes := [], pods := [], metrics := [], orders := [] }
@@ -202,14 +288,15 @@ def step (a : Acc) (line : String) : Acc :=
     match ints? rest with
     | some [id, us, nf, c0, c1, c2, rk, r0, r1, r2, s0, s1] =>
       if rk < 0 || rk > 2 then fail else
-      let anno : RawAnno := if rk = 0 then .absent else if rk = 1 then .parsed [r0, r1, r2] else .unparsable
+      let anno : RawAnno := if rk = 0 then .absent else if rk = 1 then .parsed ([r0, r1, r2].map fun v => if v < 0 then none else some v) else .unparsable
       { a with nodes := ⟨id.toNat, us ≠ 0, nf ≠ 0, [c0, c1, c2], anno, [s0, s1]⟩ :: a.nodes }
     | _ => fail
   | "pod" :: rest =>
     match ints? rest with
-    | some [node, id, ns, name, prod, f1, f2, ok] =>
+    | some [node, id, ns, name, prod, f1, f2, ok, cls, prio, dc, ec] =>
       if ns < 0 || name < 0 then fail else
-      { a with pods := ⟨node.toNat, id.toNat, (ns.toNat, name.toNat), prod ≠ 0, f1 ≠ 0, f2 ≠ 0, ok ≠ 0⟩ :: a.pods }
+      { a with pods := ⟨node.toNat, id.toNat, (ns.toNat, name.toNat), prod ≠ 0, f1 ≠ 0, f2 ≠ 0, ok ≠ 0,
+                        cls, prio, dc, ec⟩ :: a.pods }
     | _ => fail
   | "metric" :: rest =>
     match ints? rest with
@@ -223,7 +310,7 @@ def step (a : Acc) (line : String) : Acc :=
     | _ => fail
   | ["go"] =>
     match a.dc with
-    | some dc => if dc.pcts.length = 3 then runRoundLines a dc else fail
+    | some dc => if dc.pcts.length = 3 && dc.wts.isSome then runRoundLines a dc else fail
     | none => fail
   | _ => fail
 
